@@ -12,7 +12,14 @@ import (
 
 type Rng struct{ s uint64 }
 
-func NewRng(seed uint64) *Rng { return &Rng{s: seed*0x9E3779B97F4A7C15 + 0x1234567} }
+// NewRng: the seed goes through the splitmix64 finalizer first — with a state that is merely seed*G + c the stream of
+// seed k+1 is the stream of seed k shifted by one draw (every draw adds G), and neighbouring seeds explore the same cases.
+func NewRng(seed uint64) *Rng {
+	z := seed + 0x9E3779B97F4A7C15
+	z = (z ^ (z >> 30)) * 0xBF58476D1CE4E5B9
+	z = (z ^ (z >> 27)) * 0x94D049BB133111EB
+	return &Rng{s: z ^ (z >> 31)}
+}
 func (r *Rng) U64() uint64 {
 	r.s += 0x9E3779B97F4A7C15
 	z := r.s
